@@ -5,7 +5,8 @@ From PWGen Require Import ConnGen.
 Theorem gen_connect1_is_model : forall W s a b, gen_connect1 W s a b = connect1 W s a b.
 Proof.
   intros W s a b. unfold gen_connect1, connect1.
-  repeat match goal with |- context [if ?c then _ else _] => destruct c eqn:?; cbn [negb] end; try reflexivity; try congruence.
+  (* case analysis on the three tests themselves, so that guard-clause and nested spellings are both covered *)
+  destruct (memn b (conns s a)); destruct (conjb W a b); destruct (validb W a b); reflexivity.
 Qed.
 
 Theorem gen_connect_is_model : forall W bs s a, gen_connect W s a bs = connect W s a bs.
